@@ -238,7 +238,7 @@ func elemGoType(t types.Type) types.Type {
 	if t == nil {
 		return nil
 	}
-	switch u := t.Underlying().(type) {
+	switch u := under(t).(type) {
 	case *types.Slice:
 		return u.Elem()
 	case *types.Map:
@@ -602,7 +602,7 @@ func (env *Env) elabCall(e *SCall) Val {
 		obj, _, _ := types.LookupFieldOrMethod(recv.GoT, true, env.pkg, sel.Name)
 		if fld, isVar := obj.(*types.Var); isVar {
 			// a function-typed field declared as a pure callback of the function under verification
-			if sig, isSig := fld.Type().Underlying().(*types.Signature); isSig && ex.pureCallbackField(fld.Name()) {
+			if sig, isSig := under(fld.Type()).(*types.Signature); isSig && ex.pureCallbackField(fld.Name()) {
 				fv := ex.fieldGet(env.cur, recv, sel.Name)
 				return ex.callbackApp(fv, fld.Name(), sig, args())[0]
 			}
@@ -813,6 +813,9 @@ func (ex *Exec) sortOfSType(t *SType, pkg *types.Package) (*Sort, types.Type) {
 	case "error":
 		return SRef, types.Universe.Lookup("error").Type()
 	}
+	if tt, ok := ex.tparams[t.Name]; ok {
+		return ex.sortOf(tt), tt
+	}
 	gt := ex.lookupGoType(pkg, t.Name)
 	if gt == nil {
 		elabFail("unknown type %s", t.Name)
@@ -928,7 +931,7 @@ func (env *Env) elabCallMulti(e SExpr) []Val {
 		}
 		obj, _, _ := types.LookupFieldOrMethod(recv.GoT, true, env.pkg, f.Name)
 		if fld, isVar := obj.(*types.Var); isVar {
-			if sig, isSig := fld.Type().Underlying().(*types.Signature); isSig && ex.pureCallbackField(fld.Name()) {
+			if sig, isSig := under(fld.Type()).(*types.Signature); isSig && ex.pureCallbackField(fld.Name()) {
 				fv := ex.fieldGet(env.cur, recv, f.Name)
 				return ex.callbackApp(fv, fld.Name(), sig, args)
 			}
